@@ -31,4 +31,15 @@ def starve (x : Exchange) (t : Oid) : Exchange :=
     | .getbulk _ _ (o :: _) => if o < t then x r else .ok []
     | _ => x r
 
+/-- `x` behind a message-size limit: every GETBULK answer is cut to its first `n` bindings (at least
+    one is kept) — RFC 3416 4.2.3; the completion requests of the fetcher are cut in the same way -/
+def limit (x : Exchange) (n : Nat) : Exchange :=
+  fun r =>
+    match r with
+    | .getbulk _ _ _ =>
+      match x r with
+      | .ok vbs => .ok (vbs.take (max 1 n))
+      | .error e => .error e
+    | _ => x r
+
 end Snmp.Fault
